@@ -18,11 +18,16 @@ package main
 import (
 	"crypto/tls"
 	"encoding/json"
+	"errors"
 	"fmt"
+	"io"
 	"net"
 	"os"
 	"runtime"
+	"runtime/debug"
+	"runtime/pprof"
 	"sort"
+	"strconv"
 	"strings"
 	"sync"
 	"sync/atomic"
@@ -128,9 +133,12 @@ func (cv *cfgVar) canStartTLS(s mstate) bool {
 
 // describe is the part of the model state that goes into violation keys (configuration
 // independent, so that one defect yields one key).
-func (cv *cfgVar) describe(s mstate) string {
-	if s.St == stNA {
+func (cv *cfgVar) describe(s mstate, tlsRelevant bool) string {
+	if s.St == stNA && tlsRelevant {
 		return fmt.Sprintf("%s[canAuth=%v,canStartTLS=%v]", stName[s.St], cv.canAuth(s), cv.canStartTLS(s))
+	}
+	if s.St == stNA {
+		return fmt.Sprintf("%s[canAuth=%v]", stName[s.St], cv.canAuth(s))
 	}
 	return stName[s.St]
 }
@@ -160,8 +168,8 @@ const (
 )
 
 type event struct {
-	Name   string   // unique, includes the backend outcome
-	Base   string   // command name without outcome (used in keys when the outcome is irrelevant)
+	Name   string // unique, includes the backend outcome
+	Base   string // command name without outcome (used in keys when the outcome is irrelevant)
 	Class  int
 	Lines  []string // Lines[0] follows the tag; Lines[i>0] are sent only after a continuation request
 	Fail   []string // stub methods scripted to fail with NO
@@ -469,19 +477,48 @@ var assumptions = []string{
 // ------------------------------------------------------------------------------------------
 
 type server struct {
-	ss      *srvkit.StubServer
-	mu      sync.Mutex
-	cur     *srvkit.Stub
-	logSeen int
+	ss  *srvkit.StubServer
+	mu  sync.Mutex
+	cur *srvkit.Stub
+	cli *tls.Config // nil: srvkit's client configuration (full TLS 1.3 handshakes)
+}
+
+// fastTLS: TLS 1.2 with session resumption (abbreviated handshakes without public-key
+// operations) for the bulk enumerations; the server code under test only asks whether the
+// connection is a *tls.Conn. The breadth-first search and the depth-2 enumeration use the
+// default full TLS 1.3 handshake.
+var fastTLS bool
+
+// tlsClient performs the client handshake over the pipe (QuietRead: a handshake against a
+// peer that does not answer fails instead of hanging).
+func (srv *server) tlsClient(p *srvkit.Pipe) (*tls.Conn, error) {
+	if srv.cli == nil {
+		return p.TLSClient()
+	}
+	raw := p.ClientConn()
+	raw.QuietRead = true
+	c := tls.Client(raw, srv.cli)
+	if err := c.Handshake(); err != nil {
+		return nil, err
+	}
+	return c, nil
 }
 
 func newServer(cv *cfgVar) *server {
-	sc, _ := srvkit.TLSConfigs()
+	sc, cc := srvkit.TLSConfigs()
+	var cli *tls.Config
+	if fastTLS {
+		sc = sc.Clone()
+		sc.MaxVersion = tls.VersionTLS12
+		cli = cc.Clone()
+		cli.MaxVersion = tls.VersionTLS12
+		cli.ClientSessionCache = tls.NewLRUClientSessionCache(4)
+	}
 	opts := imapserver.Options{InsecureAuth: cv.cfg.Insecure, Caps: cv.v.caps()}
 	if cv.cfg.TLSMode != tlsNoCfg {
 		opts.TLSConfig = sc
 	}
-	srv := &server{}
+	srv := &server{cli: cli}
 	srv.ss = srvkit.NewStubServer(opts)
 	if cv.cfg.TLSMode == tlsImplicit {
 		srv.ss.Ln.Wrap = func(c net.Conn) net.Conn { return tls.Server(c, sc) }
@@ -506,8 +543,9 @@ func newServer(cv *cfgVar) *server {
 
 // link is the client end of one connection: plaintext over the pipe, or TLS on top of it.
 type link struct {
-	p  *srvkit.Pipe
-	tc *tls.Conn
+	p   *srvkit.Pipe
+	tc  *tls.Conn
+	buf []byte
 }
 
 // exchange sends one segment and returns everything the server says until it is quiescent.
@@ -524,7 +562,29 @@ func (l *link) exchange(raw string) (out []byte, closed bool, err error) {
 			return nil, true, nil
 		}
 	}
-	return srvkit.ReadAvailable(l.tc)
+	return l.readAvailable()
+}
+
+// readAvailable is srvkit.ReadAvailable with a reused buffer (that one allocates 64 KiB per call,
+// which dominates the cost of millions of short exchanges).
+func (l *link) readAvailable() (out []byte, closed bool, err error) {
+	if l.buf == nil {
+		l.buf = make([]byte, 16384)
+	}
+	for {
+		n, e := l.tc.Read(l.buf)
+		out = append(out, l.buf[:n]...)
+		if e != nil {
+			var ne net.Error
+			if errors.As(e, &ne) && ne.Timeout() {
+				return out, false, nil
+			}
+			if e == io.EOF || errors.Is(e, net.ErrClosed) || errors.Is(e, io.ErrUnexpectedEOF) {
+				return out, true, nil
+			}
+			return out, true, e
+		}
+	}
 }
 
 type stepDump struct {
@@ -544,6 +604,8 @@ type stepDump struct {
 type result struct {
 	key     string // violation key, "" when the run conforms
 	msg     string
+	softKey string   // a rejection of the wrong class (NO instead of BAD or vice versa): reported, but
+	softMsg string   // state and backend are as predicted, so the history is still extended
 	states  []mstate // model state after the greeting and after each history event
 	dumps   []stepDump
 	evSigs  []string // behaviour signature of each history event
@@ -555,6 +617,7 @@ type result struct {
 }
 
 type execCtx struct {
+	srv      *server
 	cv       *cfgVar
 	l        *link
 	stub     *srvkit.Stub
@@ -579,7 +642,7 @@ func (x *execCtx) fail(ev *event, p *pred, probe bool, kind, reason string) {
 	if probe {
 		x.res.key = fmt.Sprintf("state-after:%s in %s: probe %s: %s %s", x.lastEv, x.lastDesc, name, kind, reason)
 	} else {
-		x.res.key = fmt.Sprintf("%s:%s in %s: %s", kind, name, x.cv.describe(x.s), reason)
+		x.res.key = fmt.Sprintf("%s:%s in %s: %s", kind, name, x.cv.describe(x.s, ev.Class == cStartTLS || strings.Contains(reason, "STARTTLS")), reason)
 	}
 	x.res.msg = fmt.Sprintf("step %d (%s): %s %s", x.step, ev.Name, kind, reason)
 }
@@ -747,6 +810,8 @@ func (x *execCtx) do(ev *event, probe bool) bool {
 			}
 			if x.res.key != "" && x.res.msg != "" && strings.HasPrefix(x.res.msg, fmt.Sprintf("step %d ", x.step)) {
 				d.Problem = x.res.msg
+			} else if x.res.softMsg != "" && strings.HasPrefix(x.res.softMsg, fmt.Sprintf("step %d ", x.step)) {
+				d.Problem = x.res.softMsg
 			}
 			x.res.dumps = append(x.res.dumps, d)
 		}
@@ -788,7 +853,23 @@ func (x *execCtx) do(ev *event, probe bool) bool {
 		}
 	}
 	if !okClass {
-		x.fail(ev, &p, probe, "tagged-response", fmt.Sprintf("got %s want %s", class, strings.Join(p.Classes, "|")))
+		soft := class == "NO" || class == "BAD"
+		for _, c := range p.Classes {
+			if c == "OK" {
+				soft = false
+			}
+		}
+		if soft && x.res.key == "" {
+			// both are rejections: same successor state, so only the class is wrong
+			if x.res.softKey == "" {
+				save := *x.res
+				x.fail(ev, &p, probe, "tagged-response", fmt.Sprintf("got %s want %s", class, strings.Join(p.Classes, "|")))
+				x.res.softKey, x.res.softMsg = x.res.key, x.res.msg
+				x.res.key, x.res.msg = save.key, save.msg
+			}
+		} else {
+			x.fail(ev, &p, probe, "tagged-response", fmt.Sprintf("got %s want %s", class, strings.Join(p.Classes, "|")))
+		}
 	}
 	if p.Permitted {
 		okCalls := false
@@ -850,7 +931,7 @@ func (x *execCtx) do(ev *event, probe bool) bool {
 	}
 	// STARTTLS: the handshake must really happen
 	if p.StartTLS && class == "OK" && x.res.key == "" {
-		tc, err := x.l.p.TLSClient()
+		tc, err := x.srv.tlsClient(x.l.p)
 		if err != nil {
 			x.fail(ev, &p, probe, "starttls-handshake", "failed after tagged OK")
 			dump()
@@ -899,9 +980,10 @@ func (x *execCtx) do(ev *event, probe bool) bool {
 type worker struct {
 	servers map[int]*server
 	late    []*srvkit.Stub
+	buf     []byte
 }
 
-func newWorker() *worker { return &worker{servers: map[int]*server{}} }
+func newWorker() *worker { return &worker{servers: map[int]*server{}, buf: make([]byte, 16384)} }
 
 func (w *worker) close() {
 	w.lateCheck(0)
@@ -933,12 +1015,12 @@ func (w *worker) exec(cv *cfgVar, hist []int, keep bool) *result {
 		w.servers[cv.idx] = srv
 	}
 	res := &result{}
-	x := &execCtx{cv: cv, keep: keep, res: res, lastEv: "greeting", lastDesc: "initial state"}
+	x := &execCtx{srv: srv, cv: cv, keep: keep, res: res, lastEv: "greeting", lastDesc: "initial state"}
 	x.s = cv.initial()
 	p := srv.ss.Ln.Dial()
-	x.l = &link{p: p}
+	x.l = &link{p: p, buf: w.buf}
 	if cv.cfg.TLSMode == tlsImplicit {
-		tc, err := p.TLSClient()
+		tc, err := srv.tlsClient(p)
 		if err != nil {
 			res.engine = fmt.Sprintf("implicit TLS handshake failed: %v", err)
 			return res
@@ -984,7 +1066,7 @@ func (w *worker) exec(cv *cfgVar, hist []int, keep bool) *result {
 		ev := events[ei]
 		pre := x.s
 		alive = x.do(ev, false)
-		x.lastEv, x.lastDesc = ev.Name, cv.describe(pre)
+		x.lastEv, x.lastDesc = ev.Name, cv.describe(pre, ev.Class == cStartTLS)
 		if p := predict(cv, pre, ev); !p.Permitted {
 			x.lastEv = ev.Base
 		}
@@ -1043,8 +1125,7 @@ func (w *worker) exec(cv *cfgVar, hist []int, keep bool) *result {
 		}
 		w.late = append(w.late, x.stub)
 		w.lateCheck(64)
-		lines := srv.ss.Log.Snapshot()
-		for _, l := range lines[srv.logSeen:] {
+		for _, l := range srv.ss.Log.Drain() {
 			if strings.Contains(l, "panic") && res.key == "" {
 				first := l
 				if i := strings.IndexByte(first, '\n'); i > 0 {
@@ -1054,7 +1135,6 @@ func (w *worker) exec(cv *cfgVar, hist []int, keep bool) *result {
 				res.msg = l
 			}
 		}
-		srv.logSeen = len(lines)
 	}
 	return res
 }
@@ -1082,17 +1162,31 @@ func (w *worker) report(cv *cfgVar, hist []int, first *result) {
 		if last.engine != "" {
 			run.EngineError("while confirming %v in %s: %s", histNames(hist), cv.name, last.engine)
 		}
-		if last.key != first.key {
+		if last.verdict() != first.verdict() {
 			atomic.AddInt64(&unstable, 1)
-			fmt.Fprintf(os.Stderr, "UNSTABLE: %s %v: %q then %q\n", cv.name, histNames(hist), first.key, last.key)
+			fmt.Fprintf(os.Stderr, "UNSTABLE: %s %v: %q then %q\n", cv.name, histNames(hist), first.verdict(), last.verdict())
 			return
 		}
 	}
-	run.Violation(first.key, map[string]interface{}{
+	msg := last.msg
+	if last.key == "" {
+		msg = last.softMsg
+	}
+	run.Violation(first.verdict(), map[string]interface{}{
 		"config": cv.cfg, "config_name": cv.cfg.name(), "variant": cv.v.Name, "history": histNames(hist),
-		"message": last.msg, "steps": last.dumps,
+		"message": msg, "steps": last.dumps,
 	})
 }
+
+// verdict: the key under which a run is reported ("" = conforms).
+func (r *result) verdict() string {
+	if r.key != "" {
+		return r.key
+	}
+	return r.softKey
+}
+
+var softSeen sync.Map // soft key -> reported once; later occurrences are not re-confirmed
 
 type sigEntry struct {
 	sig  string
@@ -1123,7 +1217,7 @@ func (w *worker) recordSigs(cv *cfgVar, hist []int, res *result) {
 				if at >= 0 {
 					st = res.states[at]
 				}
-				run.Violation(fmt.Sprintf("behaviour-not-a-function-of-model-state:%s in %s", name, cv.describe(st)), map[string]interface{}{
+				run.Violation(fmt.Sprintf("behaviour-not-a-function-of-model-state:%s in %s", name, cv.describe(st, false)), map[string]interface{}{
 					"config": cv.cfg, "config_name": cv.cfg.name(), "variant": cv.v.Name, "history": histNames(hist), "other_history": histNames(o.hist),
 					"model_state": st.key(), "behaviour": sig, "other_behaviour": o.sig,
 					"message": "two histories reach the same model state but the implementation then behaves differently (hidden implementation state)",
@@ -1162,6 +1256,12 @@ func (w *worker) runOne(cv *cfgVar, hist []int) *result {
 		w.report(cv, hist, res)
 		return res
 	}
+	if res.softKey != "" {
+		if _, dup := softSeen.LoadOrStore(res.softKey, true); !dup {
+			w.report(cv, hist, res)
+		}
+		return res // key == "": the history is extended, the state is as the model says
+	}
 	w.recordSigs(cv, hist, res)
 	return res
 }
@@ -1171,6 +1271,7 @@ const maxViolations = 12
 
 var stoppedEarly int64
 
+var badCV sync.Map     // cv -> true: the initial state does not conform
 var badPrefix sync.Map // cv|e1 -> true: the depth-1 history does not conform; its extensions are skipped
 
 func pool(n int, f func(w *worker, i int)) {
@@ -1224,8 +1325,19 @@ func bfs(cvs []*cfgVar) (states, trans int64, maxDepth int, perCV map[string]int
 		frontier = append(frontier, node{cv, nil, s})
 		states++
 	}
-	// the empty history is a run of its own (greeting + probes)
-	pool(len(frontier), func(w *worker, i int) { w.runOne(frontier[i].cv, nil) })
+	// the empty history is a run of its own (greeting + probes); nothing is explored below a
+	// non-conforming initial state (every extension would repeat the same counterexample)
+	rootRes := make([]*result, len(frontier))
+	pool(len(frontier), func(w *worker, i int) { rootRes[i] = w.runOne(frontier[i].cv, nil) })
+	var okRoots []node
+	for i, r := range rootRes {
+		if r == nil || r.key != "" {
+			badCV.Store(frontier[i].cv.name, true)
+			continue
+		}
+		okRoots = append(okRoots, frontier[i])
+	}
+	frontier = okRoots
 	for depth := 1; len(frontier) > 0; depth++ {
 		ne := len(events)
 		results := make([]*result, len(frontier)*ne)
@@ -1236,11 +1348,11 @@ func bfs(cvs []*cfgVar) (states, trans int64, maxDepth int, perCV map[string]int
 		})
 		var next []node
 		for i, r := range results {
-			trans++
 			n := frontier[i/ne]
 			if r == nil {
 				continue // search stopped early
 			}
+			trans++
 			if r.key != "" {
 				if len(n.hist) == 0 {
 					badPrefix.Store(fmt.Sprintf("%s|%d", n.cv.name, i%ne), true)
@@ -1263,23 +1375,20 @@ func bfs(cvs []*cfgVar) (states, trans int64, maxDepth int, perCV map[string]int
 }
 
 // exhaustive: every history up to depth, no deduplication. A history is extended only if it
-// conforms (its extensions would repeat the same counterexample).
-func exhaustive(cvs []*cfgVar, depth int) (histories int64) {
+// conforms (its extensions would repeat the same counterexample). With extra, every history h of
+// length depth-1 is additionally the root of one more breadth-first level WITH deduplication: for
+// each model state first reached by some h+e1 (and different from h's own state) every h+e1+e2 is
+// run (depth+1 histories whose first depth-1 events are free of any merging).
+func exhaustive(cvs []*cfgVar, depth int, extra bool) (histories, deeper int64) {
 	ne := len(events)
-	if depth < 2 {
-		pool(len(cvs)*ne, func(w *worker, i int) {
-			w.runOne(cvs[i/ne], []int{i % ne})
-			atomic.AddInt64(&histories, 1)
-		})
-		return
-	}
 	pool(len(cvs)*ne*ne, func(w *worker, i int) {
 		cv := cvs[i/(ne*ne)]
 		e1, e2 := (i/ne)%ne, i%ne
-		// the depth-1 prefix has been judged by the breadth-first search (every event from the
-		// initial state); it is re-run here only by the shard e2==0 to count it once
 		bk := fmt.Sprintf("%s|%d", cv.name, e1)
 		if _, bad := badPrefix.Load(bk); bad {
+			return
+		}
+		if _, bad := badCV.Load(cv.name); bad {
 			return
 		}
 		if e2 == 0 {
@@ -1289,15 +1398,31 @@ func exhaustive(cvs []*cfgVar, depth int) (histories int64) {
 				return
 			}
 		}
-		var rec func(h []int)
-		rec = func(h []int) {
+		var rec func(h []int) *result
+		rec = func(h []int) *result {
 			atomic.AddInt64(&histories, 1)
-			if w.runOne(cv, h).key != "" || len(h) >= depth {
-				return
+			res := w.runOne(cv, h)
+			if res.key != "" || len(h) >= depth {
+				return res
 			}
+			seen := map[string]bool{res.states[len(h)].key(): true}
 			for e := 0; e < ne; e++ {
-				rec(append(append([]int{}, h...), e))
+				hh := append(append([]int{}, h...), e)
+				kid := rec(hh)
+				if !extra || len(hh) != depth || kid.key != "" {
+					continue
+				}
+				k := kid.states[len(hh)].key()
+				if seen[k] {
+					continue
+				}
+				seen[k] = true
+				for f := 0; f < ne; f++ {
+					atomic.AddInt64(&deeper, 1)
+					w.runOne(cv, append(append([]int{}, hh...), f))
+				}
 			}
+			return res
 		}
 		rec([]int{e1, e2})
 	})
@@ -1347,6 +1472,10 @@ func replay(cvs []*cfgVar) {
 			cv = c
 		}
 	}
+	if cv == nil && len(f.Detail.History) == 0 {
+		fmt.Printf("replay of %s\nstored key: %s\nthis artefact carries no history (it was recorded by the late Session.Close re-check):\n%s\n", run.Replay, f.Key, b)
+		run.Finish()
+	}
 	if cv == nil {
 		run.EngineError("replay: unknown configuration/variant in %s", run.Replay)
 	}
@@ -1385,9 +1514,13 @@ func replay(cvs []*cfgVar) {
 		if res.engine != "" {
 			fmt.Printf("engine problem: %s\n", res.engine)
 		}
-		if res.key != "" {
-			fmt.Printf("verdict: VIOLATION key=%s\n         %s\n", res.key, res.msg)
-			run.Violation(res.key, map[string]interface{}{"config": cv.cfg, "config_name": cv.cfg.name(), "variant": cv.v.Name, "history": names, "message": res.msg, "steps": res.dumps})
+		if res.verdict() != "" {
+			msg := res.msg
+			if res.key == "" {
+				msg = res.softMsg
+			}
+			fmt.Printf("verdict: VIOLATION key=%s\n         %s\n", res.verdict(), msg)
+			run.Violation(res.verdict(), map[string]interface{}{"config": cv.cfg, "config_name": cv.cfg.name(), "variant": cv.v.Name, "history": names, "message": msg, "steps": res.dumps})
 		} else {
 			fmt.Printf("verdict: this history conforms to the model (Session.Close count = 1)\n")
 		}
@@ -1398,12 +1531,33 @@ func replay(cvs []*cfgVar) {
 
 func main() {
 	run = vk.Start("C05", "model_checking")
+	debug.SetGCPercent(200)
+	if g := os.Getenv("C05_GOGC"); g != "" {
+		n, _ := strconv.Atoi(g)
+		debug.SetGCPercent(n)
+	}
 	for _, a := range assumptions {
 		run.Assume(a)
 	}
 	cvs := allCfgVars()
 	if run.Replay != "" {
 		replay(cvs)
+	}
+	// development aids (never set by ./check): restrict the configurations / write a CPU profile
+	devOnly := os.Getenv("C05_ONLY")
+	if devOnly != "" {
+		var f []*cfgVar
+		for _, cv := range cvs {
+			if strings.Contains(cv.name, devOnly) {
+				f = append(f, cv)
+			}
+		}
+		cvs = f
+	}
+	if pf := os.Getenv("C05_CPUPROFILE"); pf != "" {
+		fh, _ := os.Create(pf)
+		pprof.StartCPUProfile(fh)
+		defer pprof.StopCPUProfile()
 	}
 	t0 := time.Now()
 
@@ -1428,30 +1582,39 @@ func main() {
 	main1 := variants[1]
 	for _, cv := range cvs {
 		def := isDefault(cv.cfg)
-		if run.Thorough() {
-			if cv.v == main1 || def {
-				d3set = append(d3set, cv)
-			}
-		} else if def && cv.v == main1 {
+		switch {
+		case run.Thorough() && def && cv.v == main1:
+			d4set = append(d4set, cv)
+		case run.Thorough() && (def || cv.v == main1):
+			d3set = append(d3set, cv)
+		case !run.Thorough() && def && cv.v == main1:
 			d3set = append(d3set, cv)
 		}
 	}
 	t1 := time.Now()
-	hist2 = exhaustive(cvs, 2)
-	tB2 := time.Since(t1)
-	fmt.Printf("C05 B: every history of depth <= 2 without deduplication in %d configuration x variant pairs: %d histories, %.1fs\n", len(cvs), hist2, tB2.Seconds())
-	t2 := time.Now()
-	if run.NumViolations() == 0 {
-		hist3 = exhaustive(d3set, 3)
+	hist2, _ = exhaustive(cvs, 2, false)
+	fmt.Printf("C05 B: every history of depth <= 2 without deduplication in %d configuration x variant pairs: %d histories, %.1fs\n", len(cvs), hist2, time.Since(t1).Seconds())
+	var d3names, d4names []string
+	fastTLS = os.Getenv("C05_FULL_TLS") == ""
+	if os.Getenv("C05_NO_D3") == "" {
+		t2 := time.Now()
+		hist3, _ = exhaustive(d3set, 3, false)
+		for _, cv := range d3set {
+			d3names = append(d3names, cv.name)
+		}
+		fmt.Printf("C05 B: every history of depth <= 3 without deduplication in %d configuration x variant pairs: %d histories, %.1fs\n", len(d3set), hist3, time.Since(t2).Seconds())
+		if len(d4set) > 0 {
+			t3 := time.Now()
+			h3, h4 := exhaustive(d4set, 3, true)
+			hist3 += h3
+			hist4 = h4
+			for _, cv := range d4set {
+				d3names = append(d3names, cv.name)
+				d4names = append(d4names, cv.name)
+			}
+			fmt.Printf("C05 B: every history of depth <= 3 without deduplication in %d more pairs: %d histories; continued one level deeper with deduplication per depth-2 root: %d histories of depth 4, %.1fs\n", len(d4set), h3, h4, time.Since(t3).Seconds())
+		}
 	}
-	tB3 := time.Since(t2)
-	var d3names []string
-	for _, cv := range d3set {
-		d3names = append(d3names, cv.name)
-	}
-	fmt.Printf("C05 B: every history of depth <= 3 without deduplication in %d configuration x variant pairs: %d histories, %.1fs\n", len(d3set), hist3, tB3.Seconds())
-	_ = d4set
-	_ = hist4
 
 	if atomic.LoadInt64(&unstable) > 0 {
 		run.EngineError("%d counterexamples did not reproduce identically (harness nondeterminism)", unstable)
@@ -1469,6 +1632,8 @@ func main() {
 	run.Set("undeduplicated_histories_depth_le_2", hist2)
 	run.Set("undeduplicated_histories_depth_le_3", hist3)
 	run.Set("undeduplicated_depth3_pairs", d3names)
+	run.Set("depth4_histories_two_free_events_then_deduplicated", hist4)
+	run.Set("depth4_pairs", d4names)
 	run.Set("executions_on_real_server", atomic.LoadInt64(&cntExec))
 	run.Set("backend_calls_judged", atomic.LoadInt64(&cntCalls))
 	run.Set("commands_rejected_by_state", atomic.LoadInt64(&cntReject))
@@ -1484,11 +1649,12 @@ func main() {
 		evNames = append(evNames, e.Name)
 	}
 	run.Set("event_alphabet", evNames)
-	run.Rule = fmt.Sprintf("A: breadth-first search to closure over the connection state machine of the real server (fresh connection per transition: replay history + one event), deduplicated on the reference-model state {not-authenticated, authenticated, selected, logout} x TLS active x enabled capabilities x backend mailbox selected, in 12 configurations {implicit TLS, plaintext, plaintext+STARTTLS} x InsecureAuth x {OK, PREAUTH greeting} x %d session variants, %d events (every dispatcher command, UID and non-UID, each backend outcome); B: every history of depth <= 2 in all of them and depth <= 3 in %d pairs without deduplication. Every step is judged against the model (backend calls, tagged class, BYE/close, capability list), every final state is probed (CAPABILITY, STATUS, SEARCH, then LOGIN/SELECT/SEARCH/FETCH as far as the state allows), Session.Close exactly once; behaviour must be a function of the model state. non-trivial = distinct (configuration, variant, model state, event) behaviours exercised", len(variants), len(events), len(d3set))
-	run.Exhaustive = atomic.LoadInt64(&stoppedEarly) == 0
-	if !run.Exhaustive {
+	run.Rule = fmt.Sprintf("A: breadth-first search to closure over the connection state machine of the real server (fresh connection per transition: replay history + one event), deduplicated on the reference-model state {not-authenticated, authenticated, selected, logout} x TLS active x enabled capabilities x backend mailbox selected, in 12 configurations {implicit TLS, plaintext, plaintext+STARTTLS} x InsecureAuth x {OK, PREAUTH greeting} x %d session variants, %d events (every dispatcher command, UID and non-UID, each backend outcome); B: every history of depth <= 2 in all of them and depth <= 3 in %d pairs without deduplication (thorough: in %d of these pairs additionally depth 4, the last level deduplicated per depth-2 root). Every step is judged against the model (backend calls, tagged class, BYE/close, capability list), every final state is probed (CAPABILITY, STATUS, SEARCH, then LOGIN/SELECT/SEARCH/FETCH as far as the state allows), Session.Close exactly once; behaviour must be a function of the model state. non-trivial = distinct (configuration, variant, model state, event) behaviours exercised", len(variants), len(events), len(d3names), len(d4names))
+	run.Exhaustive = atomic.LoadInt64(&stoppedEarly) == 0 && devOnly == ""
+	if atomic.LoadInt64(&stoppedEarly) != 0 {
 		fmt.Printf("C05: search stopped after %d distinct counterexamples; not exhaustive\n", run.NumViolations())
 	}
+	pprof.StopCPUProfile()
 	fmt.Printf("C05 totals: %d executions on the real server, %d backend calls judged, %d state-rejected commands, %d STARTTLS handshakes, %d distinct (state,event) behaviours, %.1fs\n",
 		cntExec, cntCalls, cntReject, cntTLS, sigCount, time.Since(t0).Seconds())
 	run.Finish()
